@@ -4,29 +4,39 @@
    fdtdx sets an object up ("apply": sample the material arrays inside the object's box and derive
    the object's state from them) at one of two moments (fdtd/initialization.py):
      place_objects : every object NOT flagged by some device is applied against the pre-device arrays
-     apply_params  : device parameters are written into the material arrays, device by device, and then
-                     every object flagged by some device is applied against the post-device arrays
-   where "flagged" is Device.check_overlap(object) (objects/object.py).
+     apply_params  : device parameters are written into the material arrays, device by device, then
+                     the arrays handed to the objects are fixed (inv_permittivities and the
+                     stop_gradient'd copies of dispersive_c1..c4 / electric_conductivity), and every
+                     object flagged by some device is applied against them
+   where "flagged" is Device.check_overlap(object) (objects/object.py).  apply_params may be called
+   again on what it returned, with other parameters.
 
    The machine below has one action per code-level step:
-     PlaceApply  == the object loop at the end of place_objects            (object oi)
-     ApplyParams == one iteration of the device loop of apply_params        (device di+1)
-     Reapply     == the object loop at the end of apply_params              (object oi)
-   The material arrays are the exact integer model of OverlapDefs (PostVal); an object's state is the
-   sequence of material values it sampled (Snap), << >> while it has never been applied.
+     PlaceApply  == the object loop at the end of place_objects                 (object oi)
+     ApplyParams == one iteration of the device loop of apply_params             (device di+1)
+     SnapshotAux == taking the copies of the dispersion / conductivity arrays that the object loop uses
+     Reapply     == the object loop at the end of apply_params                   (object oi)
+     NextCall    == apply_params is called again with the other parameter pattern
+   The material arrays are the exact integer model of OverlapDefs: a history `writes` of device writes
+   determines two per-cell attributes, eps (inv_permittivities) and aux (dispersion/conductivity
+   class).  An object's state is the pair of sequences it sampled, << >> while never applied.
 
-   Property C29 (StateIsFresh): when apply_params returns, every object whose box shares a cell with
-   a device holds exactly the state a fresh apply against the post-device arrays gives - for every
-   one of the 13 x 13 x 13 Allen relations between the boxes.  The flag rule is a CONSTANT so that the
-   rule in the code before the fix ("endpoint_any_axis") is the negative instance.                  *)
+   Property C29 (StateIsFresh): whenever apply_params returns, every object whose box shares a cell
+   with a device holds exactly the state a fresh apply against ALL returned arrays gives - for every
+   one of the 13 x 13 x 13 Allen relations between the boxes, and after every call (the state follows
+   the LAST parameters).  Negative instances: the flag rule of the code before the fix
+   (Rule = "endpoint_any_axis"), and the dispersion/conductivity copies taken before the device loop
+   (SnapWhen = "before_devices").                                                                   *)
 EXTENDS OverlapDefs
 
-CONSTANTS N,       \* cells per axis of the lattice
-          Rule,    \* flag rule, see OverlapDefs!Flag
-          Scene    \* "reps": one device, one object ranging over one representative box per Allen triple (13^3)
-                   \* "all" : one device, one object ranging over every box of the lattice
-                   \* "pair": two devices, two objects ranging over axis sweeps + diagonal boxes
-                   \* "pairq": as "pair" with the sweep along the x axis only and representative intervals only (quick tier)
+CONSTANTS N,        \* cells per axis of the lattice
+          Rule,     \* flag rule, see OverlapDefs!Flag
+          SnapWhen, \* "after_devices" (the code) | "before_devices" (wrong: stale dispersion/conductivity)
+          NCalls,   \* number of consecutive apply_params calls (patterns 0, 1, 0, ...)
+          Scene     \* "reps": one device, one object ranging over one representative box per Allen triple (13^3)
+                    \* "all" : one device, one object ranging over every box of the lattice
+                    \* "pair": two devices, two objects ranging over axis sweeps + diagonal boxes
+                    \* "pairq": as "pair" with the sweep along the x axis only and representative intervals only (quick tier)
 
 Cube(iv) == << iv, iv, iv >>
 Devs == IF Scene \in {"pair", "pairq"} THEN << Cube(<<0, 3>>), Cube(<<4, 7>>) >> ELSE << Cube(RepDev) >>
@@ -43,7 +53,7 @@ ObjBoxes == CASE Scene = "reps" -> RepIvs \X RepIvs \X RepIvs
               [] Scene = "all"  -> Intervals(N) \X Intervals(N) \X Intervals(N)
               [] Scene \in {"pair", "pairq"} -> SweepBoxes
 
-ASSUME N >= 7 /\ RepsOK
+ASSUME N >= 7 /\ RepsOK /\ NCalls >= 1
 \* every Allen relation occurs on every axis of the enumerated boxes
 ASSUME Scene \in {"reps", "all"} =>
          \A r \in AllenNames, a \in 1..3 : \E O \in ObjBoxes : Allen(O[a], Devs[1][a]) = r
@@ -53,57 +63,81 @@ ASSUME \A O \in ObjBoxes, d \in 1..NDev :
          /\ Intersects(O, Devs[d]) <=> (\A a \in 1..3 : Allen(O[a], Devs[d][a]) \in SharingNames)
 
 VARIABLES objs,    \* sequence of object boxes (fixed at Init)
-          pc,      \* "place" | "params" | "reapply" | "done"
+          pc,      \* "place" | "presnap" | "params" | "postsnap" | "reapply" | "returned"
           oi,      \* next object of the current object loop
-          di,      \* devices whose parameters have been written so far
-          snap,    \* per object: sampled material values, << >> = never applied
+          di,      \* devices written so far in the current apply_params call
+          call,    \* number of the current apply_params call (0 during place_objects)
+          writes,  \* history of device writes << device, pattern >> (determines all material arrays)
+          auxk,    \* length of the history prefix whose dispersion/conductivity arrays the object loop is handed
+          snap,    \* per object: [eps, aux] sampled sequences, << >> = never applied
           napp     \* per object: number of apply calls so far
-vars == << objs, pc, oi, di, snap, napp >>
+vars == << objs, pc, oi, di, call, writes, auxk, snap, napp >>
 
 Flagged(O) == \E d \in 1..NDev : Flag(Rule, Devs[d], O)
-\* state an apply gives when k devices have been written
-Snap(O, k) == [ i \in 1..BoxLen(O) |-> PostVal(CellAt(O, i), Devs, k) ]
+\* state an apply gives: permittivity from the current arrays, dispersion/conductivity from the copies
+Sampled(O, ke, ka) == [ eps |-> SnapEps(O, Devs, writes, ke), aux |-> SnapAux(O, Devs, writes, ka) ]
+Fresh(O) == Sampled(O, Len(writes), Len(writes))
 
 Init == /\ objs \in [ 1..NObj -> ObjBoxes ]
-        /\ pc = "place" /\ oi = 1 /\ di = 0
+        /\ pc = "place" /\ oi = 1 /\ di = 0 /\ call = 0
+        /\ writes = << >> /\ auxk = 0
         /\ snap = [ o \in 1..NObj |-> << >> ]
         /\ napp = [ o \in 1..NObj |-> 0 ]
 
 PlaceApply ==
     /\ pc = "place"
     /\ IF ~Flagged(objs[oi])
-       THEN snap' = [ snap EXCEPT ![oi] = Snap(objs[oi], di) ] /\ napp' = [ napp EXCEPT ![oi] = @ + 1 ]
+       THEN snap' = [ snap EXCEPT ![oi] = Sampled(objs[oi], 0, 0) ] /\ napp' = [ napp EXCEPT ![oi] = @ + 1 ]
        ELSE UNCHANGED << snap, napp >>
-    /\ IF oi = NObj THEN pc' = "params" /\ oi' = 1 ELSE pc' = pc /\ oi' = oi + 1
-    /\ UNCHANGED << objs, di >>
+    /\ IF oi = NObj THEN pc' = "presnap" /\ oi' = 1 /\ call' = 1 ELSE pc' = pc /\ oi' = oi + 1 /\ call' = call
+    /\ UNCHANGED << objs, di, writes, auxk >>
+
+\* the copies of the dispersion / conductivity arrays for the object loop: where the code takes them
+\* (after the device loop) or, in the wrong variant, at the top of apply_params
+SnapshotAux ==
+    /\ pc \in {"presnap", "postsnap"}
+    /\ auxk' = IF (pc = "presnap") = (SnapWhen = "before_devices") THEN Len(writes) ELSE auxk
+    /\ pc' = IF pc = "presnap" THEN "params" ELSE "reapply"
+    /\ UNCHANGED << objs, oi, di, call, writes, snap, napp >>
 
 ApplyParams ==
     /\ pc = "params"
-    /\ IF di < NDev THEN di' = di + 1 /\ pc' = pc ELSE di' = di /\ pc' = "reapply"
-    /\ UNCHANGED << objs, oi, snap, napp >>
+    /\ IF di < NDev
+       THEN di' = di + 1 /\ pc' = pc /\ writes' = Append(writes, << di + 1, (call - 1) % 2 >>)
+       ELSE di' = 0 /\ pc' = "postsnap" /\ writes' = writes
+    /\ UNCHANGED << objs, oi, call, auxk, snap, napp >>
 
 Reapply ==
     /\ pc = "reapply"
     /\ IF Flagged(objs[oi])
-       THEN snap' = [ snap EXCEPT ![oi] = Snap(objs[oi], di) ] /\ napp' = [ napp EXCEPT ![oi] = @ + 1 ]
+       THEN snap' = [ snap EXCEPT ![oi] = Sampled(objs[oi], Len(writes), auxk) ] /\ napp' = [ napp EXCEPT ![oi] = @ + 1 ]
        ELSE UNCHANGED << snap, napp >>
-    /\ IF oi = NObj THEN pc' = "done" /\ oi' = 1 ELSE pc' = pc /\ oi' = oi + 1
-    /\ UNCHANGED << objs, di >>
+    /\ IF oi = NObj THEN pc' = "returned" /\ oi' = 1 ELSE pc' = pc /\ oi' = oi + 1
+    /\ UNCHANGED << objs, di, call, writes, auxk >>
 
-Next == PlaceApply \/ ApplyParams \/ Reapply
+NextCall ==
+    /\ pc = "returned" /\ call < NCalls
+    /\ call' = call + 1 /\ pc' = "presnap"
+    /\ UNCHANGED << objs, oi, di, writes, auxk, snap, napp >>
+
+Next == PlaceApply \/ SnapshotAux \/ ApplyParams \/ Reapply \/ NextCall
 Spec == Init /\ [][Next]_vars
 
 \* ---------- properties ----------
-TypeOK == /\ pc \in {"place", "params", "reapply", "done"} /\ oi \in 1..NObj /\ di \in 0..NDev
-          /\ \A o \in 1..NObj : snap[o] = << >> \/ Len(snap[o]) = BoxLen(objs[o])
+TypeOK == /\ pc \in {"place", "presnap", "params", "postsnap", "reapply", "returned"} /\ oi \in 1..NObj /\ di \in 0..NDev
+          /\ call \in 0..NCalls /\ auxk \in 0..Len(writes) /\ Len(writes) <= NCalls * NDev
+          /\ \A o \in 1..NObj : snap[o] = << >> \/ (Len(snap[o].eps) = BoxLen(objs[o]) /\ Len(snap[o].aux) = BoxLen(objs[o]))
 
-\* C29: an object intersecting a device ends with the state of a fresh set-up against the final arrays
+\* C29: whenever apply_params returns, an object intersecting a device has the state of a fresh set-up
+\* against the returned arrays - permittivity AND dispersion/conductivity - i.e. it follows the last parameters
 StateIsFresh ==
-    pc = "done" => \A o \in 1..NObj : NeedsReapply(objs[o], Devs) => snap[o] = Snap(objs[o], NDev)
+    pc = "returned" => \A o \in 1..NObj : NeedsReapply(objs[o], Devs) => snap[o] = Fresh(objs[o])
 \* consequence for the other objects: their earlier set-up is still valid (no device cell in their box)
-AllValid == pc = "done" => \A o \in 1..NObj : snap[o] = Snap(objs[o], NDev)
-\* every object is set up exactly once over place_objects + apply_params
-AppliedOnce == pc = "done" => \A o \in 1..NObj : napp[o] = 1
+AllValid == pc = "returned" => \A o \in 1..NObj : snap[o] = Fresh(objs[o])
+\* every object is set up once at placement or once per apply_params call, never both
+AppliedOnce == pc = "returned" => \A o \in 1..NObj : napp[o] = IF Flagged(objs[o]) THEN call ELSE 1
+\* the returned arrays are those of complete calls with alternating patterns
+HistoryComplete == pc = "returned" => writes = Calls(Devs, call)
 \* nothing is set up while the device loop is running, and a set-up never sees a half-written array
-NoApplyDuringParams == [][ pc = "params" => snap' = snap ]_vars
+NoApplyDuringParams == [][ (pc \in {"presnap", "params", "postsnap"}) => (snap' = snap) ]_vars
 ========================================================================
